@@ -23,9 +23,12 @@ func findDuplicateSlot(slots []*SlotStmt) (string, int) {
 		counts[slot.Name.Value]++
 	}
 
-	// find the first slot name that has a count greater than 1
-	for name, times := range counts {
-		if times > 1 {
+	// find the first slot name that has a count greater than 1, in the
+	// order of the slots rather than in Go's random map order
+	for _, slot := range slots {
+		name := slot.Name.Value
+
+		if times := counts[name]; times > 1 {
 			return name, times
 		}
 	}
